@@ -9,7 +9,7 @@ from ..constructeddata import Any, Array, ArrayOf, List
 
 from ..apdu import SimpleAckPDU, ReadPropertyACK, ReadPropertyMultipleACK, \
     ReadAccessResult, ReadAccessResultElement, ReadAccessResultElementChoice
-from ..errors import ExecutionError
+from ..errors import DecodingError, ExecutionError, InvalidParameterDatatype
 from ..object import PropertyError
 
 # some debugging
@@ -116,13 +116,17 @@ class ReadWritePropertyServices(Capability):
             if _debug: ReadWritePropertyServices._debug("    - datatype: %r", datatype)
 
             # special case for array parts, others are managed by cast_out
-            if issubclass(datatype, Array) and (apdu.propertyArrayIndex is not None):
-                if apdu.propertyArrayIndex == 0:
-                    value = apdu.propertyValue.cast_out(Unsigned)
+            try:
+                if issubclass(datatype, Array) and (apdu.propertyArrayIndex is not None):
+                    if apdu.propertyArrayIndex == 0:
+                        value = apdu.propertyValue.cast_out(Unsigned)
+                    else:
+                        value = apdu.propertyValue.cast_out(datatype.subtype)
                 else:
-                    value = apdu.propertyValue.cast_out(datatype.subtype)
-            else:
-                value = apdu.propertyValue.cast_out(datatype)
+                    value = apdu.propertyValue.cast_out(datatype)
+            except DecodingError as err:
+                # not one value of that datatype (none at all, or more than one)
+                raise InvalidParameterDatatype(str(err))
             if _debug: ReadWritePropertyServices._debug("    - value: %r", value)
 
             # change the value
